@@ -93,6 +93,8 @@ TEMPLATES = [
     (3, lambda s: [s[0], s[1], s[2]]),           # 17 [a, b, c]
     (2, lambda s: ([s[0]], (s[1],))),            # 18 ([a], (b,))
     (4, lambda s: (s[0], s[1], s[2], s[3])),     # 19 (a, b, c, d)
+    (2, lambda s: {"k": {"m": s[0], "n": s[1]}}),                # 20 {k: {m: a, n: b}}
+    (3, lambda s: {"k": {"m": s[0]}, "l": [s[1], {"n": s[2]}]}),  # 21 {k: {m: a}, l: [b, {n: c}]}
 ]
 # templates in which every slot is reached through lists/tuples only (start-order clause)
 SEQ_ONLY = {0, 1, 2, 3, 4, 5, 12, 13, 14, 16, 17, 18, 19}
@@ -913,6 +915,22 @@ def task_fn_pure(rt, td, sid):
     return (yield from _body(rt, td, sid))
 
 
+class FalsyReceiver(object):
+    """an instance whose truth value is False (an empty container): methods must still be bound to it"""
+
+    def __len__(self):
+        return 0
+
+    def __repr__(self):
+        return "<FalsyReceiver>"
+
+    @asynq.asynq()
+    def m(self, rt, td, sid):
+        if not isinstance(self, FalsyReceiver):
+            raise TypeError("method body reached without its receiver")
+        return (yield from _body(rt, td, sid))
+
+
 # ---------------------------------------------------------------------------------------
 # monitors on scheduler events
 
@@ -959,8 +977,8 @@ def mon_c04_before(rt, batch):
 def mon_c05_before(rt, batch):
     if not isinstance(batch, HBatch):
         return
-    if batch.is_flushed():
-        rt.problem("c05", "scheduler flushes an already flushed batch")
+    if _futures.FutureBase.is_computed(batch):
+        rt.problem("c05", "scheduler flushes an already flushed or cancelled batch")
     if not batch.items:
         rt.problem("c05", "scheduler flushes an empty batch")
     if rt.wait_stack and rt.wait_stack[-1].is_computed():
@@ -1077,6 +1095,23 @@ def run_root(rt, td, conv=0):
             v = w[1][0]
         elif conv == 3:
             t = asynq.async_call.asynq(task_fn, rt, td, "0")
+            rt.tasks["0"] = {"obj": t, "ts": None, "yielded": True, "td": td}
+            rt.wait_stack.append(t)
+            try:
+                v = t.value()
+            finally:
+                rt.wait_stack.pop()
+        elif conv == 4:
+            # a method of a falsy instance, called synchronously
+            rt.tasks["0"] = {"obj": None, "ts": None, "yielded": True, "td": td}
+            rt.wait_stack.append(_FirstTask(rt, "0"))
+            try:
+                v = FalsyReceiver().m(rt, td, "0")
+            finally:
+                rt.wait_stack.pop()
+        elif conv == 5:
+            # the same method through .asynq(...).value()
+            t = FalsyReceiver().m.asynq(rt, td, "0")
             rt.tasks["0"] = {"obj": t, "ts": None, "yielded": True, "td": td}
             rt.wait_stack.append(t)
             try:
@@ -1398,7 +1433,7 @@ def outcome_desc(o):
 
 def check_program(td, props, nkinds=2, prio=None, prio_mode="tuple", hash_order=0, conv=0,
                   sv_init=(0, 0), tree_single_kind=False, expect_flushes=None, budget=4000,
-                  flush_hook=None, sig=None, precreate=None, public_flush_raises=None):
+                  flush_hook=None, sig=None, precreate=None, public_flush_raises=None, options=None):
     """Runs `td` on the real scheduler and on the reference; returns True iff every monitor of
     the requested properties held.  `props` is a set of monitor names."""
     rec.clear_fail()
@@ -1407,6 +1442,11 @@ def check_program(td, props, nkinds=2, prio=None, prio_mode="tuple", hash_order=
             sv_init=sv_init, monitors=props)
     rt.flush_hook = flush_hook
     rt.public_flush_raises = public_flush_raises
+    optctx = None
+    if options:
+        from harness import c20 as _c20
+        optctx = _c20.options(set(_c20.OPTS.index(o) for o in options), False)
+        optctx.__enter__()
     try:
         for key, ptd in (precreate or {}).items():
             rt.precreated[key] = _mk_task(rt, ptd, "PRE:%s" % key)
@@ -1416,6 +1456,8 @@ def check_program(td, props, nkinds=2, prio=None, prio_mode="tuple", hash_order=
         if ok and rt.stash:
             ok = _after_stash(rt, props)
     finally:
+        if optctx is not None:
+            optctx.__exit__(None, None, None)
         reset_globals()
     nflush = len(rt.flush_log)
     rec.wit("paths")
